@@ -21,3 +21,9 @@ Definition l0_run (optbits limit : Z) (sizes bs : list Z) : list oev * rend * op
 Definition l0_run_after_reset (optbits limit : Z) (first second : list Z) : list oev * rend * option info_t :=
   let '(s1, _, _) := feed zinf_ref inflate_checked utf8_valid (init_state (opts_of_bits optbits) limit) [first] in
   observe (feed zinf_ref inflate_checked utf8_valid (reset_model s1) [second]).
+
+(* the remaining allocation budget (Limits::bytes) after the run: compared with the implementation's by the C06 check *)
+Definition l0_budget (optbits limit : Z) (sizes bs : list Z) : Z :=
+  let '(s, _, _) := feed zinf_ref inflate_checked utf8_valid (init_state (opts_of_bits optbits) limit)
+                         (split_sched (S (length bs)) sizes bs) in
+  budget s.
